@@ -179,6 +179,7 @@ func init() {
 			guard(r, func() { ruleStorageArms(r) })
 			guard(r, func() { foundation(r) })
 			guard(r, func() { ruleFootprint(r, "E.footprint", footSel("(*column.Collection).CreateIndex", "(*column.Collection).DropIndex", "(*column.Collection).Query"), 3) })
+			guard(r, func() { ruleSnapshotComplete(r) }) // the back-fill of a late index reads the same Put stream
 		}})
 	register(&PropSpec{ID: "C04",
 		Explanation: "Filters, iteration and aggregates — structural part. (C04.ops) which bitmap operation each filter applies to (selection, column) and the missing-column behaviour; (C04.presence) typed filters intersect with presence before the predicate scan, WithValue tests presence, aggregates fold only under selection ∧ presence; (C04.cursor) cursor positioned on the row before its callback; (C04.units) per-block slices indexed by relative offsets, callbacks receive absolute ones; (L3) predicate and fold run under the block latch; (U.defs) block arithmetic and scratch bitmap size." + staticNote,
@@ -214,6 +215,7 @@ func init() {
 			guard(r, func() { ruleSerialFields(r) })
 			guard(r, func() { ruleDecodeFresh(r) })
 			guard(r, func() { ruleWireGrammar(r) })
+			guard(r, func() { ruleSerialisersReadOnly(r) })
 		}})
 	register(&PropSpec{ID: "C06",
 		Explanation: "Replica convergence — structural part. (L5.emit) every append to logger/recorder happens under the block's exclusive latch, so per block emission order = apply order for all schedules; (C06.emitorder) emission after updates and markers were applied (merges rewritten); (C06.emitfields) the emitted commit names this block, the drawn id and the transaction's buffers; (C06.clone, C05.copy) the channel logger sends a deep clone, the file logger serialises synchronously; (C06.replay) Replay marks the commit's block and queues every non-empty buffer through a transaction; (C03.order) no replay-time append reorders operations; (C01.arms) Merge arms swap in the final value." + staticNote,
@@ -244,6 +246,7 @@ func init() {
 			guard(r, func() { ruleFootprint(r, "E.footprint", footSel("(*column.Collection).Replay", "(*column.Collection).Query"), 2) })
 			guard(r, func() { ruleWireGrammar(r) })
 			guard(r, func() { ruleEmitOnce(r) }) // a commit that is applied but not emitted never reaches the replica
+			guard(r, func() { ruleSerialisersReadOnly(r) })
 		}})
 	register(&PropSpec{ID: "C07",
 		Explanation: "Restore reproduces the collection — structural part. (C07.abs) offset-kind analysis of every Snapshot implementation, the state writer and PutBitmap: absolute offsets into the buffer, relative into per-block storage; (C07.count) the announced buffer count and the buffers written use one predicate; (C13.whole) readState applies each block through its own transaction and only when the block was read completely; (C11.markers) insert markers rebuild the fill list and the count; (U.defs) block arithmetic." + staticNote,
@@ -271,6 +274,7 @@ func init() {
 			guard(r, func() { ruleStateFlush(r) })
 			guard(r, func() { ruleFootprint(r, "E.footprint", footSel("(*column.Collection).Snapshot", "(*column.Collection).Restore"), 2) })
 			guard(r, func() { ruleWireGrammar(r) })
+			guard(r, func() { ruleSnapshotComplete(r) })
 		}})
 	register(&PropSpec{ID: "C08",
 		Explanation: "Snapshot under concurrent commits is a consistent cut — structural part. (L5.id) the commit id is drawn, stored and handed on while the block's exclusive latch is held (so per block id order = apply order for all schedules); (L5.emit) the recorder append and the recording test happen under that latch; (C08.read) the snapshot reads id, fill slice and columns of a block under the block latch and the collection mutex; (C08.order) recorder opened before the state is written, log copied after; (C08.replay) restore replays exactly the commits whose id is not below the block's stored id; (C02.isolation) the fill slice read contains only committed rows; (L4) commit-id table discipline." + staticNote,
@@ -308,6 +312,7 @@ func init() {
 			ruleFootprint(r, "E.footprint", func(n string) bool {
 				return strings.HasSuffix(n, ").Merge") || strings.HasPrefix(n, "(column.Row).Merge") || n == "(column.rwTTL).Extend"
 			}, 10)
+			guard(r, func() { ruleCodecFlags(r) }) // a merge that is not encoded (or shifts the offsets of the ones after it) is lost
 		}})
 	register(&PropSpec{ID: "C10",
 		Explanation: "No half-applied commit visible on a row — static lock discipline. A closure-sensitive must-hold lockset analysis walks every call path from the exported API (SSA, CHA for interface calls, environment-resolved closures) and decides: (L1) every call that applies a commit to a registered column holds the block's exclusive latch; (L2) every client callback invoked after the cursor was positioned holds the block latch; (C10.shard) the shard locked is the block the critical section works on; (C10.single) markers and all column updates of a block are applied inside one critical section; (L0) lock operations are balanced and pair on the same shard. If these hold no interleaving can place a reader's callback between two column updates of one commit on the row's block." + staticNote,
@@ -385,6 +390,7 @@ func init() {
 			guard(r, func() { ruleFileHandles(r) })
 			guard(r, func() { ruleStateFlush(r) })
 			guard(r, func() { ruleFootprint(r, "E.footprint", footSel("(*column.Collection).Snapshot"), 1) })
+			guard(r, func() { ruleL0(r) }) // "leaves the collection usable": a latch leaked on an error exit hangs every later commit to the block
 		}})
 	register(&PropSpec{ID: "C15",
 		Explanation: "Change stream exactly-once, per-block ordered, identifiable — structural part. (C15.once) the commit callback's flow graph is evaluated under all 16 valuations of its guards: one logger append iff rows changed or a column was updated, one callback per dirty block; (C15.dirty) dirty blocks come from the buffers' headers; (C02.effects emit/*) appends only below commit; (L5.id) ids drawn under the exclusive latch from one atomic counter ⇒ per block id order = apply order = emission order (with L5.emit); (C06.emitfields) emitted fields; (C05.copy) Commit.Clone keeps the id." + staticNote,
@@ -404,6 +410,7 @@ func init() {
 			guard(r, func() { ruleCommitOrder(r, false, true) })
 			guard(r, func() { ruleCommitUpdates(r) })
 			guard(r, func() { ruleFootprint(r, "E.footprint", footSel("(*column.Collection).Query", "(*column.Collection).Replay"), 2) })
+			guard(r, func() { ruleSerialisersReadOnly(r) }) // the logger is handed the transaction's own slice once per block
 		}})
 	register(&PropSpec{ID: "C16",
 		Explanation: "Sorted-index iteration complete and ordered — structural part. (C16.cmp) the ordering handed to the tree reads every field of the item; (C16.arms) arm effects of columnSortIndex.Apply; (C16.scan) Ascend scans ascending and filters by the selection; (C04.cursor) cursor positioned; (C01.alias) keys are copies; (C11.order) a put+delete of one row leaves no entry." + staticNote,
@@ -439,6 +446,7 @@ func init() {
 			guard(r, func() { rulePeriodicCleanup(r) })
 			guard(r, func() { foundation(r) })
 			guard(r, func() { ruleFootprint(r, "E.footprint", footSel("(column.rwTTL).", "(column.Row).TTL", "(column.Row).SetTTL"), 4) })
+			guard(r, func() { ruleVacuumVisitsEveryRow(r) })
 		}})
 	register(&PropSpec{ID: "C18",
 		Explanation: "Race/deadlock discipline. The lockset walk (see C10) decides for every call path: (L0) balance; (L1) column Apply under the exclusive latch, index back-fill included; (L2) positioned callbacks under the latch; (L3) every storage access reachable from an API root under the latch; (L4) fill list under the collection mutex, counter atomic-only, commit-id table under mutex/latch; (L6) key table and sorted index under their locks; (L7) cross-block column state is written only under a lock its readers take; (L8) the acquisition-order graph over all paths is acyclic with no re-acquisition and no latch-under-latch; (L9) the registry published through atomic.Value is never edited in place; (L.table) every field of every Column implementation is classified. Necessary conditions for race- and deadlock-freedom over all schedules; not sufficient (abstract locks, no alias analysis across functions, dependencies trusted)." + staticNote,
